@@ -306,6 +306,134 @@ def run_history(case, A, B):
     return problems, None
 
 
+# ---------------------------------------------------------------------------------------------------------------------------------
+# Input KINDS.  Quantifier of the property covered here: "inputs" — the property speaks of *3-d [time, x, y] arrays*, not of C-contiguous
+# native float64 ndarrays.  What `apply` accepts (np.ndarray and subclasses) reaches the per-cell loop only through its conversion step
+# (non-float dtype -> float, masked array -> NaN at the masked entries, "For computation the masked values here are filled in by
+# nan-values").  A cell's time series is what the caller's array DENOTES at that cell: the value where the entry is valid, missing (NaN)
+# where it is masked — never the storage that happens to lie under a mask (a fill value such as -9999 / 1e20).  Cases: per argument a dtype
+# (float64/32, int64/32/16, uint16/8), a container (plain, read-only, non-native byte order, masked array without mask / with an all-False
+# mask / with masked entries / with a wholly masked cell = a land-sea mask; built by masked_array(mask=), masked_equal(sentinel) or by
+# assigning np.ma.masked on a view) and a memory layout; probes and real debiasers, Debiaser.apply and DeltaChange.apply, serial and
+# parallel.  Judged by the same oracle as every other case: shape, floating dtype (that of the converted cm_future), every column =
+# apply_location on the cell's denoted series alone (a fresh instance), serial = parallel; when a location raises on its series (a
+# debiaser that cannot work with a gap) every run must raise.
+KIND_CONTAINERS = ("ndarray", "readonly", "byteswapped", "masked/nomask", "masked/all-false", "masked/entries", "masked/column",
+                   "masked/equal-sentinel", "masked/view-assign")
+KIND_DTYPES = ("f8", "f4", "i8", "i4", "i2", "u2", "u1")
+# (kind, position of the forced argument, its dtype, its container): every run has masked entries over non-float and float storage in
+# each argument position of both apply implementations
+KIND_FORCED = [("deb", 0, "i8", "masked/entries"), ("deb", 1, "i4", "masked/column"), ("deb", 2, "i2", "masked/equal-sentinel"),
+               ("dc", 0, "i4", "masked/view-assign"), ("dc", 1, "u2", "masked/entries"), ("dc", 2, "i8", "masked/column"),
+               ("deb", 2, "f4", "masked/entries"), ("dc", 0, "f8", "masked/equal-sentinel"), ("deb", 0, "u1", "masked/column"),
+               ("dc", 2, "i2", "masked/entries")]
+
+
+def kind_sentinel(dtype):
+    """what lies in the storage under a masked entry (the usual fill values)"""
+    dt = np.dtype(dtype)
+    if np.issubdtype(dt, np.floating):
+        return dt.type(1e20)
+    return dt.type(-9999) if np.issubdtype(dt, np.signedinteger) else np.iinfo(dt).max
+
+
+def gen_kinds(rng, what, forced=None):
+    """a JSON-able input-kind case + the three storage arrays (native, C order; the sentinel already lies under the entries to be masked)"""
+    probe = what.startswith("probe")
+    kind = forced[0] if forced else ("dc" if what.endswith(("/dc", "DeltaChange")) else "deb")
+    if probe:
+        what = "probe-kinds/" + kind
+    nx, ny = rng.choice([(1, 2), (2, 1), (2, 2), (2, 3), (3, 2), (1, 3), (1, 1)])
+    lengths = [rng.randint(2, 6) for _ in range(3)] if probe else [rng.randint(30, 50) for _ in range(3)]
+    if rng.random() < 0.25:
+        lengths = [lengths[0]] * 3
+    dtypes, containers, layouts, masks, stor = [], [], [], [], []
+    nprs = np.random.RandomState(rng.randint(0, 2**31 - 1))
+    for a in range(3):
+        dt = rng.choice(KIND_DTYPES if probe else KIND_DTYPES[:-1])
+        co = rng.choice(KIND_CONTAINERS)
+        if forced and a == forced[1]:
+            dt, co = forced[2], forced[3]
+        if co == "byteswapped" and np.dtype(dt).itemsize == 1:
+            co = "readonly"
+        if not probe and co in ("masked/entries", "masked/column", "masked/equal-sentinel", "masked/view-assign") and not forced \
+                and what.split("/", 1)[1] not in ("LinearScaling", "DeltaChange") and rng.random() < 0.5:
+            co = "masked/all-false"  # half of the fitted debiasers' cases stay free of gaps (a gap makes most fits raise: then all runs must raise)
+        T = lengths[a]
+        if probe:
+            x = G.rand_data(nprs, T, nx, ny, dt)
+        elif np.issubdtype(np.dtype(dt), np.floating):
+            x = G.tas_grid(nprs, T, nx, ny, 283 + 2 * a, np.dtype(dt))
+        else:
+            x = (nprs.randint(270, 300, size=(T, nx, ny)) + 2 * a).astype(dt)  # integer Kelvin
+        m = np.zeros(x.shape, dtype=bool)
+        if co in ("masked/entries", "masked/equal-sentinel", "masked/view-assign"):
+            for _ in range(rng.randint(1, 2)):
+                m[rng.randrange(T), rng.randrange(nx), rng.randrange(ny)] = True
+            if co != "masked/entries" and rng.random() < 0.3:
+                m[:, rng.randrange(nx), rng.randrange(ny)] = True
+        elif co == "masked/column":
+            m[:, rng.randrange(nx), rng.randrange(ny)] = True
+            if rng.random() < 0.5:
+                m[rng.randrange(T), rng.randrange(nx), rng.randrange(ny)] = True
+        x[m] = kind_sentinel(dt)
+        dtypes.append(dt)
+        containers.append(co)
+        layouts.append(rng.choice(G.LAYOUTS) if rng.random() < 0.3 else "C")
+        masks.append([int(v) for v in np.flatnonzero(m.ravel())])
+        stor.append(x)
+    case = dict(kind=kind, what=what, variant="input kinds", nx=nx, ny=ny, To=lengths[0], Th=lengths[1], Tf=lengths[2], dtypes=dtypes,
+                containers=containers, layouts=layouts, masks=masks, nprocs=[rng.choice(G.NPROCS_QUICK)] if probe else [2], seed=C.seed())
+    return case, stor
+
+
+def build_kinds(case, stor):
+    """-> (the three arguments handed to apply, the three float arrays they denote: NaN at the masked entries)"""
+    args, den = [], []
+    for x, dt, co, lay, mi in zip(stor, case["dtypes"], case["containers"], case["layouts"], case["masks"]):
+        x = G.relayout(np.array(x, dtype=dt), lay)
+        m = np.zeros(x.size, dtype=bool)
+        m[list(mi)] = True
+        m = m.reshape(x.shape)
+        if co == "byteswapped":
+            x = x.astype(x.dtype.newbyteorder())
+        d = x.copy() if np.issubdtype(x.dtype, np.floating) else x.astype(float)
+        d[m] = np.nan
+        if co == "readonly":
+            x.flags.writeable = False
+            a = x
+        elif co == "masked/nomask":
+            a = np.ma.masked_array(x)
+        elif co in ("masked/all-false", "masked/entries", "masked/column"):
+            a = np.ma.masked_array(x, mask=m.copy(), fill_value=kind_sentinel(dt) if m.any() else None)
+        elif co == "masked/equal-sentinel":
+            a = np.ma.masked_equal(x, kind_sentinel(dt))
+        elif co == "masked/view-assign":
+            a = x.view(np.ma.MaskedArray)
+            a[m] = np.ma.masked
+        else:
+            a = x
+        if co.startswith("masked/") and not (isinstance(a, np.ma.MaskedArray) and np.array_equal(np.ma.getmaskarray(a), m)
+                                             and np.array_equal(np.ma.getdata(a), x)):
+            a = np.ma.masked_array(x, mask=m.copy())  # the construction path did not give the intended array: the plain constructor
+        args.append(a)
+        den.append(d)
+    return args, den
+
+
+def run_kinds(case, stor):
+    """runs one input-kind case against the real code; -> [(problem, case + storage arrays)]; never raises for a failure of the code under test"""
+    def mk():
+        return G.debiaser_for(case)
+
+    results = [("serial", G.run_apply(mk(), *build_kinds(case, stor)[0]))]
+    for p in case["nprocs"]:
+        results.append((f"parallel/{p}", G.run_apply(mk(), *build_kinds(case, stor)[0], parallel=True, nproc=p)))
+    local = []
+    oracle(case, mk(), *build_kinds(case, stor)[1], results, local, ref_deb=mk)
+    return [(p, {**c, **G.pack(*stor)}) for p, c in local]
+
+
 def run(tier, res, force_search=False):
     rng = random.Random(C.seed() * 104729 + 5)
     res.rule = ("cases = (debiaser kind, grid shape, three time lengths, dtypes, failsafe flag, optional wrong-length / length-1 marker cell) from one PRNG "
@@ -315,7 +443,10 @@ def run(tier, res, force_search=False):
                 "running windows with time arrays, QDM pr with an all-dry first cell, ISIMIP with a degenerate first cell, argument aliasing; serial + parallel, "
                 "reference = apply_location on copies with a FRESH instance; call sequences on one instance (settings assigned after construction, earlier "
                 "serial / parallel / per-location work on another data set with another calendar and equal or different lengths, copy / pickle), judged "
-                "serial = parallel = per-location on the instance itself before and after the grid call = per-location on a freshly constructed instance")
+                "serial = parallel = per-location on the instance itself before and after the grid call = per-location on a freshly constructed instance; "
+                "input kinds (own PRNG stream): per argument a dtype (float64/32, int64/32/16, uint16/8) x a container (plain, read-only, byte-swapped, masked array "
+                "without mask / all-False mask / masked entries / a wholly masked cell, three construction paths, fill values in the storage under the mask) x a layout, "
+                "probes and real debiasers, reference = apply_location on the series the array denotes (NaN at masked entries)")
     res.trusted = C.BASE_TRUSTED + [
         "multiprocessing.Pool.starmap is modelled by Model.Grid.poolRun/starmap (slots indexed by argument position, explicit completion schedule); "
         "the starmap contract is *derived* from that model (Props.C05.starmap_contract), that the runtime behaves like the model is trusted and exercised by the tier-B runs",
@@ -469,6 +600,35 @@ def run(tier, res, force_search=False):
             rs = [("serial", G.run_apply(mk(), obs, hist, fut)), ("parallel/2", G.run_apply(mk(), obs, hist, fut, parallel=True, nproc=2))]
             oracle(case, mk(), obs, hist, fut, rs, problems, ref_deb=mk)
             res.count(("isolated-missing", name, str(bad), nx, ny, To, Th, Tf), True, sample=case if name == "LinearScaling" else None)
+
+    # ---- input kinds (see gen_kinds): dtype x container (plain / read-only / byte-swapped / masked arrays with and without masked entries,
+    #      several construction paths) x layout per argument; own PRNG stream, so the case streams above and below do not shift
+    krng = random.Random(C.seed() * 104729 + 505)
+    n_kinds = len(KIND_FORCED) + (20 if tier == "quick" else 60)
+    kind_plan = [("probe/" + rng_kind, None) for rng_kind in (krng.choice(["deb", "deb", "dc"]) for _ in range(n_kinds))]
+    for k, f in enumerate(KIND_FORCED):
+        kind_plan[k] = ("probe/" + f[0], f)
+    others = [n for n in debs if n not in ("LinearScaling", "DeltaChange")]
+    kind_plan += [("real/LinearScaling", ("deb", 2, "i8", "masked/entries")), ("real/DeltaChange", ("dc", 0, "i4", "masked/column")),
+                  ("real/LinearScaling", None), ("real/DeltaChange", None)]
+    kind_plan += [("real/" + n, None) for n in (krng.sample(others, 3) if tier == "quick" else others + krng.sample(others, 3))]
+    if force_search or not lean_ok:
+        kind_plan += [("probe/" + krng.choice(["deb", "dc"]), None) for _ in range(2 * n_kinds)]
+    import time as _time
+
+    t_kinds = _time.time()
+    for what, forced in kind_plan:
+        case, stor = gen_kinds(krng, what, forced)
+        try:
+            probs = run_kinds(case, stor)
+        except Exception as ex:  # noqa: BLE001  (the code under test is called under try inside run_apply / stacked; this is a last resort)
+            probs = [(f"the input-kind case raised {type(ex).__name__}: {G.safe_str(ex)}", {**case, **G.pack(*stor)})]
+        problems.extend(probs)
+        gaps = sum(len(m) for m in case["masks"])
+        res.count(("kinds", case["what"], tuple(case["dtypes"]), tuple(case["containers"]), tuple(case["layouts"]), case["nx"], case["ny"],
+                   case["To"], case["Th"], case["Tf"], gaps), gaps > 0 or any(c != "ndarray" for c in case["containers"]) or any(d not in ("f8", "f4") for d in case["dtypes"]),
+                  sample=case if forced == KIND_FORCED[0] else None)
+    res.extra["input_kind_cases"], res.extra["input_kind_seconds"] = len(kind_plan), round(_time.time() - t_kinds, 2)
 
     # ---- a degenerate FIRST cell (constant model series: the parametric fit of ISIMIP step 6 fails its KS test there) must not change how the
     #      later cells are treated: every cell = the cell alone on a fresh instance, serial = parallel, instance attributes unchanged by apply
@@ -759,6 +919,13 @@ def replay(data):
             print("REPRODUCED:", p)
         if not probs:
             print("not reproduced: the property holds on this call sequence" + (f" ({note})" if note else ""))
+        return 1 if probs else 0
+    if fi.get("containers"):  # an input-kind case: rebuild the containers (dtype, mask, construction path, layout) over the recorded storage
+        probs = run_kinds({k: v for k, v in fi.items() if not (isinstance(v, dict) and "values" in v)}, list(G.unpack(fi)))
+        for p, _ in probs:
+            print("REPRODUCED:", p)
+        if not probs:
+            print("not reproduced: the property holds on this input")
         return 1 if probs else 0
     obs, hist, fut = G.unpack(fi)
     if fi.get("layouts"):
